@@ -9,7 +9,7 @@ use std::collections::BTreeMap;
 use std::panic::{catch_unwind, AssertUnwindSafe};
 use std::sync::Arc;
 
-const ALPHA: [&str; 5] = ["a", "b", "c", "d", ""];
+const ALPHA: [&str; 7] = ["a", "b", "c", "d", "", "A", "B"];
 fn comp(i: usize) -> String { ALPHA[i].to_string() }
 fn num(s: &str) -> u64 { ALPHA.iter().position(|x| *x == s).unwrap() as u64 + 1 }
 fn path_coq(p: &[String]) -> String { format!("{}%N", coq_list(p, |s| format!("{}", num(s)))) }
@@ -40,7 +40,8 @@ pub fn run(outdir: &str, seed: u64, thorough: bool) -> serde_json::Value {
     let mut cj = vec![];
     for i in 0..n {
         let mut r = rng.fork();
-        let nalpha = if r.chance(1, 3) { 2 } else { 5 };
+        // (one case in four also draws components that differ from another by case only: they are different names)
+        let nalpha = if r.chance(1, 3) { 2 } else if r.chance(1, 3) { 7 } else { 5 };
         let nkmax = if r.chance(1, 10) { 40 } else { 8 };
         let nk = r.range(0, nkmax);
         let mut m: BTreeMap<Vec<String>, u64> = BTreeMap::new();
